@@ -396,6 +396,9 @@ func (w *world) callMods(kg *fgen, x ssa.CallInstruction, ms *modset) {
 	}
 	callee := c.StaticCallee()
 	if callee == nil {
+		if _, pure := kg.pureFieldCall(c); pure {
+			return // declared pure: no heap effect
+		}
 		o := newModset()
 		o.all, o.heapOnly, o.why = true, true, "dynamic call"
 		ms.union(o)
